@@ -80,6 +80,33 @@ K({
     ],
 })
 
+# --------------------------------------------------------------------------- K2
+SHIFT = "chalk-ir/src/fold/shift.rs"
+K({
+    "id": "K2",
+    "title": "ir_shift_leaf: Shifter::adjust, DownShifter::adjust and the fold driver's leaf step (chalk-ir/src/fold/shift.rs)",
+    "crate": "chalk-ir",
+    "complete": True,
+    "bound": None,
+    "mods": [{"into": SHIFT, "harness": "chalk_ir/k2_shift.rs", "name": "verif_k2"}],
+    "contracts": [
+        {"file": SHIFT, "within": r"^impl<I: Interner> Shifter<I>$", "fn": "adjust", "path": "Shifter::adjust",
+         "attrs": ["kani::requires(bound_var.debruijn.depth() as u64 + self.source_binder.depth() as u64 + outer_binder.depth() as u64 <= u32::MAX as u64)",
+                   "kani::ensures(|r: &BoundVar| r.index == bound_var.index && r.debruijn.depth() as u64 == "
+                   "bound_var.debruijn.depth() as u64 + self.source_binder.depth() as u64 + outer_binder.depth() as u64)"]},
+        {"file": SHIFT, "within": r"^impl<I> DownShifter<I>$", "fn": "adjust", "path": "DownShifter::adjust",
+         "attrs": ["kani::requires(bound_var.debruijn.depth() < self.target_binder.depth() || "
+                   "(bound_var.debruijn.depth() - self.target_binder.depth()) as u64 + outer_binder.depth() as u64 <= u32::MAX as u64)",
+                   "kani::ensures(|r: &Fallible<BoundVar>| match r { Err(_) => bound_var.debruijn.depth() < self.target_binder.depth(), "
+                   "Ok(b) => bound_var.debruijn.depth() >= self.target_binder.depth() && b.index == bound_var.index && "
+                   "b.debruijn.depth() as u64 == (bound_var.debruijn.depth() - self.target_binder.depth()) as u64 + outer_binder.depth() as u64 })"]},
+    ],
+    "assumptions": [
+        "K2: the fold driver's leaf step (fold.rs: `if let Some(bv1) = bv.shifted_out_to(outer_binder) {..}`) is replicated in the harness (2 lines); the driver itself (recursion through dyn folders) is not verified",
+    ],
+    "trusted": [],
+})
+
 # --------------------------------------------------------------------------- K5
 INPLACE = "chalk-ir/src/fold/in_place.rs"
 K({
@@ -203,6 +230,33 @@ V({
         "V10: TraitDatum::is_auto_trait / is_coinductive_trait read the trait's flags (abstract)",
     ],
     "trusted": ["interner (Goal::data)"],
+})
+
+# --------------------------------------------------------------------------- V5
+V({
+    "id": "V5",
+    "title": "forest_answer_stream + root_answer_shape: Forest::root_answer, <ForestSolver as AnswerStream>::{peek_answer, next_answer}",
+    "template": "v5_forest.rs",
+    "assumptions": [
+        "V5: SolveState::ensure_root_answer (the SLG state machine, logic.rs) is havoc: anything may happen to the forest; assumed only: stack empty on Ok, never Err(NegativeCycle) ('avoided by construction', the stream panics on one), keeps borrowing the same forest",
+        "V5: partial correctness only (exec_allows_no_decreases_clause on peek_answer); loop invariant inserted in place (extractor edit I3)",
+        "V5: index_struct!-generated AnswerIndex/TableIndex written out by hand; AnswerIndex::increment treated as mathematical +1 (no overflow)",
+        "V5: Forest::answer returns the stored answer (abstract view spec_answer)",
+    ],
+    "trusted": ["chalk-engine logic.rs state machine (havoc)", "index_struct! macro expansion"],
+})
+
+# --------------------------------------------------------------------------- V2
+V({
+    "id": "V2",
+    "title": "with_priorities (chalk-recursive/src/combine.rs)",
+    "template": "v2_with_priorities.rs",
+    "assumptions": [
+        "V2: calculate_inputs is abstract (it substitutes through the generic folder); its Vec<GenericArg> result and Vec == Vec are modelled by a list type whose == is equality of the abstract sequence (vstd has no spec for Vec == Vec)",
+        "V2: callee contract Solution::combine == spec_combine (proved by V1)",
+        "V2 (symmetry lemma): two trivially-true solutions of one query are equal",
+    ],
+    "trusted": [],
 })
 
 # ===========================================================================
